@@ -768,6 +768,44 @@ Section FrontUids.
     - apply (IH (seen ++ [x])); try assumption.
       apply (PInv_step K I key worse dom feq sim UK dom_irrefl dom_trans dom_compat_l cap); assumption.
   Qed.
+  (* whatever the similarity function: the front never holds more members than individuals were
+     shown (counted with repeats), so nothing is evicted while that number stays within the capacity *)
+  Lemma size_step seen a ind :
+    useen (seen ++ [ind]) -> PInv seen a ->
+    size (pstep a ind) <= S (size a) /\ (pevicts a ind = true -> cap < S (size a)).
+  Proof.
+    intros Us [M Hnd Inc Hcap].
+    assert (Uind : UK (key ind)) by (apply Us; apply in_or_app; right; left; reflexivity).
+    assert (Uit : forall x, In x (items a) -> UK (key x)).
+    { intros x Hx. apply Us. apply in_or_app. left. apply Inc, Hx. }
+    destruct (pf_step_cases K I key worse dom feq sim UK dom_trans dom_compat_l cap a ind Hnd M Uit Uind)
+      as [(E & Ev & _)|(ds & D & M1 & Hkeep & Hfree & E & Ev)].
+    - rewrite E, Ev. split; [lia|discriminate].
+    - cbv zeta in *. rewrite E, Ev.
+      assert (Z2 : size (ins (prune_desc K I a ds) ind) <= S (size a)).
+      { rewrite arch_insert_size, (prune_desc_size K I ds a D). lia. }
+      split.
+      + unfold ParetoProofs.final. destruct (over_capacity cap _); [|exact Z2].
+        rewrite remove_nat_size; [lia|]. rewrite arch_insert_size. lia.
+      + intros Ov. unfold over_capacity in Ov. apply andb_true_iff in Ov. destruct Ov as [Ov _].
+        apply Nat.ltb_lt in Ov. lia.
+  Qed.
+
+  Lemma count_no_evict inds : forall seen a,
+    useen (seen ++ inds) -> PInv seen a -> size a <= length seen -> length (seen ++ inds) <= cap ->
+    pf_no_evict key worse dom feq sim cap a inds = true.
+  Proof.
+    induction inds as [|x r IH]; intros seen a Us H Z Few; simpl; [reflexivity|].
+    replace (seen ++ x :: r) with ((seen ++ [x]) ++ r) in * by (rewrite <- app_assoc; reflexivity).
+    pose proof (useen_app_l K I key UK _ _ Us) as Us1.
+    destruct (size_step seen a x Us1 H) as [Z1 Ev].
+    assert (L : length (seen ++ [x]) = S (length seen)) by (rewrite app_length; simpl; lia).
+    assert (L2 : length (seen ++ [x]) <= length ((seen ++ [x]) ++ r)) by (rewrite (app_length (seen ++ [x]) r); lia).
+    apply andb_true_iff. split.
+    - apply negb_true_iff. destruct (pevicts a x) eqn:E; [|reflexivity]. specialize (Ev eq_refl). lia.
+    - apply (IH (seen ++ [x])); try assumption; [|lia].
+      apply (PInv_step K I key worse dom feq sim UK dom_irrefl dom_trans dom_compat_l cap); assumption.
+  Qed.
 End FrontUids.
 
 (* ====================== the Pareto front of individuals ====================== *)
@@ -778,7 +816,7 @@ Definition shown_multi (seen : list indiv) : Prop :=
   SepU (map fitness seen) /\ all_multi (map fitness seen).
 
 Section FrontConcrete.
-  Variable sk : simkind.
+  Variable sim : indiv -> indiv -> bool.   (* any user-supplied similarity function *)
   Variable cap : nat.
   Variable seen_all : list indiv.
   Hypothesis HS : SepU (map fitness seen_all).
@@ -803,18 +841,18 @@ Section FrontConcrete.
 
   Lemma front_PInv pops :
     incl (concat pops) seen_all ->
-    PInv fit indiv fitness f_dom cap (concat pops) (pf_runs sk cap empty_arch pops).
+    PInv fit indiv fitness f_dom cap (concat pops) (pf_run fitness f_worse f_dom f_eq sim cap empty_arch pops).
   Proof.
     intros Inc. unfold pf_runs.
-    apply (pareto_inv_run fit indiv fitness f_worse f_dom f_eq (sim_of sk) U di dt cl cap).
+    apply (pareto_inv_run fit indiv fitness f_worse f_dom f_eq sim U di dt cl cap).
     apply useen_of, Inc.
   Qed.
 
   Lemma front_sorted pops :
-    incl (concat pops) seen_all -> ksorted fit indiv f_better (pf_runs sk cap empty_arch pops).
+    incl (concat pops) seen_all -> ksorted fit indiv f_better (pf_run fitness f_worse f_dom f_eq sim cap empty_arch pops).
   Proof.
-    intros Inc. unfold pf_runs. rewrite pf_run_fold.
-    apply (sorted_fold fit indiv fitness f_worse f_better f_dom f_eq (sim_of sk) U nobot wb bi bt bn di dt cl cap
+    intros Inc. rewrite pf_run_fold.
+    apply (sorted_fold fit indiv fitness f_worse f_better f_dom f_eq sim U nobot wb bi bt bn di dt cl cap
              (concat pops) [] empty_arch).
     - apply useen_of, Inc.
     - apply PInv_empty.
@@ -823,8 +861,8 @@ Section FrontConcrete.
 
   Lemma front_exact pops :
     incl (concat pops) seen_all ->
-    pf_no_evict fitness f_worse f_dom f_eq (sim_of sk) cap empty_arch (concat pops) = true ->
-    let a := pf_runs sk cap empty_arch pops in
+    pf_no_evict fitness f_worse f_dom f_eq sim cap empty_arch (concat pops) = true ->
+    let a := pf_run fitness f_worse f_dom f_eq sim cap empty_arch pops in
     (forall m, In m (items a) -> In m (concat pops) /\
                forall s, In s (concat pops) -> f_dom (fitness s) (fitness m) = false) /\
     (forall s, In s (concat pops) -> (forall s', In s' (concat pops) -> f_dom (fitness s') (fitness s) = false) ->
@@ -834,8 +872,8 @@ Section FrontConcrete.
     apply (exact_of_cov fit indiv fitness f_dom f_eq U dt fs cl cap).
     - apply useen_of, Inc.
     - apply front_PInv, Inc.
-    - unfold a, pf_runs. rewrite pf_run_fold.
-      apply (Cov_fold fit indiv fitness f_worse f_dom f_eq (sim_of sk) U di dt fr fs cl cr cap (concat pops) [] empty_arch).
+    - unfold a. rewrite pf_run_fold.
+      apply (Cov_fold fit indiv fitness f_worse f_dom f_eq sim U di dt fr fs cl cr cap (concat pops) [] empty_arch).
       + apply useen_of, Inc.
       + apply PInv_empty.
       + intros s [].
@@ -844,36 +882,27 @@ Section FrontConcrete.
 
   Lemma front_best_update pops pop h rest :
     incl (concat pops ++ pop) seen_all ->
-    items (pf_runs sk cap empty_arch pops) = h :: rest ->
-    exists h' rest', items (pf_upd sk cap (pf_runs sk cap empty_arch pops) pop) = h' :: rest' /\
+    items (pf_run fitness f_worse f_dom f_eq sim cap empty_arch pops) = h :: rest ->
+    exists h' rest', items (pf_update fitness f_worse f_dom f_eq sim cap (pf_run fitness f_worse f_dom f_eq sim cap empty_arch pops) pop) = h' :: rest' /\
                      f_better (fitness h) (fitness h') = false.
   Proof.
-    intros Inc E. unfold pf_upd.
+    intros Inc E. 
     assert (Inc1 : incl (concat pops) seen_all) by (intros x Hx; apply Inc; apply in_or_app; left; exact Hx).
-    apply (front_best_never_worse fit indiv fitness f_worse f_better f_dom f_eq (sim_of sk) U nobot wb bi bt bn di dt cl db cap
+    apply (front_best_never_worse fit indiv fitness f_worse f_better f_dom f_eq sim U nobot wb bi bt bn di dt cl db cap
              (concat pops) _ pop h rest).
     - apply useen_of, Inc.
     - apply front_PInv, Inc1.
     - apply front_sorted, Inc1.
     - exact E.
   Qed.
-  Lemma opt_nat_eqb_refl o : opt_nat_eqb o o = true.
-  Proof. destruct o; simpl; [apply Nat.eqb_refl|reflexivity]. Qed.
-
-  Lemma sim_of_refl x : U (fitness x) -> sim_of sk x x = true.
-  Proof.
-    intros Hx. destruct sk; simpl.
-    - apply Nat.eqb_refl.
-    - unfold sim_same. rewrite (fr _ Hx), opt_nat_eqb_refl, Nat.eqb_refl. reflexivity.
-  Qed.
-
   Lemma front_few_no_evict pops :
+    (forall x, U (fitness x) -> sim x x = true) ->
     incl (concat pops) seen_all -> uid_inj indiv uid (concat pops) ->
     distinct indiv uid (concat pops) <= cap ->
-    pf_no_evict fitness f_worse f_dom f_eq (sim_of sk) cap empty_arch (concat pops) = true.
+    pf_no_evict fitness f_worse f_dom f_eq sim cap empty_arch (concat pops) = true.
   Proof.
-    intros Inc Ui Few.
-    apply (few_no_evict fit indiv fitness f_worse f_dom f_eq (sim_of sk) uid U di dt fr cl sim_of_refl cap
+    intros Hrefl Inc Ui Few.
+    apply (few_no_evict fit indiv fitness f_worse f_dom f_eq sim uid U di dt fr cl Hrefl cap
              (concat pops) [] empty_arch).
     - apply useen_of, Inc.
     - exact Ui.
@@ -881,13 +910,24 @@ Section FrontConcrete.
     - constructor.
     - exact Few.
   Qed.
+  Lemma front_count_no_evict pops :
+    incl (concat pops) seen_all -> length (concat pops) <= cap ->
+    pf_no_evict fitness f_worse f_dom f_eq sim cap empty_arch (concat pops) = true.
+  Proof.
+    intros Inc Few.
+    apply (count_no_evict fit indiv fitness f_worse f_dom f_eq sim U di dt cl cap (concat pops) [] empty_arch).
+    - apply useen_of, Inc.
+    - apply PInv_empty.
+    - unfold size. simpl. lia.
+    - exact Few.
+  Qed.
 End FrontConcrete.
 
 (* (4) members never dominate one another; keys mirror items; only individuals shown; the
    capacity is respected -- after any sequence of updates, whatever the capacity *)
-Theorem pareto_inv sk cap pops :
+Theorem pareto_inv_sim sim cap pops :
   shown_multi (concat pops) ->
-  let a := pf_runs sk cap empty_arch pops in
+  let a := pf_run fitness f_worse f_dom f_eq sim cap empty_arch pops in
   keys a = rev (map fitness (items a)) /\
   (forall x y, In x (items a) -> In y (items a) -> f_dom (fitness x) (fitness y) = false) /\
   incl (items a) (concat pops) /\
@@ -895,71 +935,87 @@ Theorem pareto_inv sk cap pops :
   StronglySorted (fun x y => f_better x y = false) (keys a).
 Proof.
   intros [S M] a.
-  destruct (front_PInv sk cap (concat pops) S M pops (incl_refl _)) as [Mi Nd Inc Cap].
+  destruct (front_PInv sim cap (concat pops) S M pops (incl_refl _)) as [Mi Nd Inc Cap].
   repeat split; try assumption.
-  apply (front_sorted sk cap (concat pops) S M pops (incl_refl _)).
+  apply (front_sorted sim cap (concat pops) S M pops (incl_refl _)).
 Qed.
 
 (* (5) as long as the capacity eviction never fired, the archived fitness vectors are exactly the
    non-dominated vectors among everything shown *)
-Theorem pareto_exact sk cap pops :
+Theorem pareto_exact_sim sim cap pops :
   shown_multi (concat pops) ->
-  pf_no_evict fitness f_worse f_dom f_eq (sim_of sk) cap empty_arch (concat pops) = true ->
+  pf_no_evict fitness f_worse f_dom f_eq sim cap empty_arch (concat pops) = true ->
   let seen := concat pops in
-  let a := pf_runs sk cap empty_arch pops in
+  let a := pf_run fitness f_worse f_dom f_eq sim cap empty_arch pops in
   (forall m, In m (items a) -> In m seen /\ forall s, In s seen -> f_dom (fitness s) (fitness m) = false) /\
   (forall s, In s seen -> (forall s', In s' seen -> f_dom (fitness s') (fitness s) = false) ->
              exists m, In m (items a) /\ f_eq (fitness m) (fitness s) = true).
 Proof.
-  intros [S M] Ne. apply (front_exact sk cap (concat pops) S M pops (incl_refl _) Ne).
+  intros [S M] Ne. apply (front_exact sim cap (concat pops) S M pops (incl_refl _) Ne).
 Qed.
 
 (* an unbounded front (maxsize None / 0) never evicts *)
-Lemma no_evict_unbounded sk inds : forall a,
-  pf_no_evict fitness f_worse f_dom f_eq (sim_of sk) 0 a inds = true.
+Lemma no_evict_unbounded_sim sim inds : forall a,
+  pf_no_evict fitness f_worse f_dom f_eq sim 0 a inds = true.
 Proof.
   induction inds as [|x r IH]; intros a; simpl; [reflexivity|].
   rewrite IH, andb_true_r. unfold pf_step_evicts, over_capacity. simpl. rewrite !andb_false_r. reflexivity.
 Qed.
 
-Theorem pareto_exact_unbounded sk pops :
+Theorem pareto_exact_unbounded_sim sim pops :
   shown_multi (concat pops) ->
   let seen := concat pops in
-  let a := pf_runs sk 0 empty_arch pops in
+  let a := pf_run fitness f_worse f_dom f_eq sim 0 empty_arch pops in
   (forall m, In m (items a) -> In m seen /\ forall s, In s seen -> f_dom (fitness s) (fitness m) = false) /\
   (forall s, In s seen -> (forall s', In s' seen -> f_dom (fitness s') (fitness s) = false) ->
              exists m, In m (items a) /\ f_eq (fitness m) (fitness s) = true).
-Proof. intros H. apply pareto_exact; [exact H|apply no_evict_unbounded]. Qed.
+Proof. intros H. apply pareto_exact_sim; [exact H|apply no_evict_unbounded_sim]. Qed.
 
 (* ... and for a bounded front as long as no more distinct individuals were shown than it holds
    (the observable condition used by the oracle Keeper.pareto_clauses) *)
 Definition uid_injective (seen : list indiv) : Prop :=
   forall s t, In s seen -> In t seen -> uid s = uid t -> s = t.
 
-Theorem pareto_exact_few sk cap pops :
+Theorem pareto_exact_few_sim sim cap pops :
+  (forall x, In (fitness x) (map fitness (concat pops)) -> sim x x = true) ->
   shown_multi (concat pops) -> uid_injective (concat pops) ->
   length (nodup Nat.eq_dec (map uid (concat pops))) <= cap ->
   let seen := concat pops in
-  let a := pf_runs sk cap empty_arch pops in
+  let a := pf_run fitness f_worse f_dom f_eq sim cap empty_arch pops in
   (forall m, In m (items a) -> In m seen /\ forall s, In s seen -> f_dom (fitness s) (fitness m) = false) /\
   (forall s, In s seen -> (forall s', In s' seen -> f_dom (fitness s') (fitness s) = false) ->
              exists m, In m (items a) /\ f_eq (fitness m) (fitness s) = true).
 Proof.
-  intros H Ui Few. apply pareto_exact; [exact H|]. destruct H as [S M].
-  apply (front_few_no_evict sk cap (concat pops) S M pops (incl_refl _) Ui Few).
+  intros Hrefl H Ui Few. apply pareto_exact_sim; [exact H|]. destruct H as [S M].
+  apply (front_few_no_evict sim cap (concat pops) S M pops); [|apply incl_refl|exact Ui|exact Few].
+  exact Hrefl.
+Qed.
+
+(* ... and, for ANY similarity function, as long as no more individuals (counted with repeats) were
+   shown than the front can hold *)
+Theorem pareto_exact_count_sim sim cap pops :
+  shown_multi (concat pops) -> length (concat pops) <= cap ->
+  let seen := concat pops in
+  let a := pf_run fitness f_worse f_dom f_eq sim cap empty_arch pops in
+  (forall m, In m (items a) -> In m seen /\ forall s, In s seen -> f_dom (fitness s) (fitness m) = false) /\
+  (forall s, In s seen -> (forall s', In s' seen -> f_dom (fitness s') (fitness s) = false) ->
+             exists m, In m (items a) /\ f_eq (fitness m) (fitness s) = true).
+Proof.
+  intros H Few. apply pareto_exact_sim; [exact H|]. destruct H as [S M].
+  apply (front_count_no_evict sim cap (concat pops) S M pops (incl_refl _) Few).
 Qed.
 
 (* the lexicographically best member never gets worse from one update to the next, whatever
    the capacity *)
-Theorem pareto_best_never_worse sk cap pops pop h rest :
+Theorem pareto_best_never_worse_sim sim cap pops pop h rest :
   shown_multi (concat (pops ++ [pop])) ->
-  items (pf_runs sk cap empty_arch pops) = h :: rest ->
-  exists h' rest', items (pf_runs sk cap empty_arch (pops ++ [pop])) = h' :: rest' /\
+  items (pf_run fitness f_worse f_dom f_eq sim cap empty_arch pops) = h :: rest ->
+  exists h' rest', items (pf_run fitness f_worse f_dom f_eq sim cap empty_arch (pops ++ [pop])) = h' :: rest' /\
                    f_better (fitness h) (fitness h') = false.
 Proof.
   intros [S M] E. rewrite concat_app in S, M. simpl in S, M. rewrite app_nil_r in S, M.
-  unfold pf_runs, pf_run. rewrite fold_left_app. simpl.
-  apply (front_best_update sk cap (concat pops ++ pop) S M pops pop h rest (incl_refl _) E).
+  unfold pf_run. rewrite fold_left_app. simpl.
+  apply (front_best_update sim cap (concat pops ++ pop) S M pops pop h rest (incl_refl _) E).
 Qed.
 
 (* on the universe shown, dominance is Pareto dominance of the (weighted) value vectors and
@@ -973,3 +1029,68 @@ Proof.
   - apply (u_fdom _ S M); apply in_map; assumption.
   - apply (u_feq _ S); apply in_map; assumption.
 Qed.
+
+(* ---------- the similarity functions the harness constructs fronts with ---------- *)
+Lemma opt_nat_eqb_refl o : opt_nat_eqb o o = true.
+Proof. destruct o; simpl; [apply Nat.eqb_refl|reflexivity]. Qed.
+
+Definition sim_reflexive (sk : simkind) : bool := match sk with SimNever => false | _ => true end.
+
+Lemma sim_of_refl sk seen x :
+  SepU (map fitness seen) -> sim_reflexive sk = true -> In (fitness x) (map fitness seen) -> sim_of sk x x = true.
+Proof.
+  intros S R Hx. destruct sk; simpl; try discriminate; try reflexivity.
+  - apply Nat.eqb_refl.
+  - unfold sim_same. rewrite (u_feq_refl _ S _ Hx), opt_nat_eqb_refl, Nat.eqb_refl. reflexivity.
+  - apply Nat.eqb_refl.
+Qed.
+
+Theorem pareto_inv sk cap pops :
+  shown_multi (concat pops) ->
+  let a := pf_runs sk cap empty_arch pops in
+  keys a = rev (map fitness (items a)) /\
+  (forall x y, In x (items a) -> In y (items a) -> f_dom (fitness x) (fitness y) = false) /\
+  incl (items a) (concat pops) /\
+  (0 < cap -> length (items a) <= cap) /\
+  StronglySorted (fun x y => f_better x y = false) (keys a).
+Proof. exact (pareto_inv_sim (sim_of sk) cap pops). Qed.
+
+Theorem pareto_exact sk cap pops :
+  shown_multi (concat pops) ->
+  pf_no_evict fitness f_worse f_dom f_eq (sim_of sk) cap empty_arch (concat pops) = true ->
+  let seen := concat pops in
+  let a := pf_runs sk cap empty_arch pops in
+  (forall m, In m (items a) -> In m seen /\ forall s, In s seen -> f_dom (fitness s) (fitness m) = false) /\
+  (forall s, In s seen -> (forall s', In s' seen -> f_dom (fitness s') (fitness s) = false) ->
+             exists m, In m (items a) /\ f_eq (fitness m) (fitness s) = true).
+Proof. exact (pareto_exact_sim (sim_of sk) cap pops). Qed.
+
+Theorem pareto_exact_unbounded sk pops :
+  shown_multi (concat pops) ->
+  let seen := concat pops in
+  let a := pf_runs sk 0 empty_arch pops in
+  (forall m, In m (items a) -> In m seen /\ forall s, In s seen -> f_dom (fitness s) (fitness m) = false) /\
+  (forall s, In s seen -> (forall s', In s' seen -> f_dom (fitness s') (fitness s) = false) ->
+             exists m, In m (items a) /\ f_eq (fitness m) (fitness s) = true).
+Proof. exact (pareto_exact_unbounded_sim (sim_of sk) pops). Qed.
+
+Theorem pareto_exact_few sk cap pops :
+  sim_reflexive sk = true ->
+  shown_multi (concat pops) -> uid_injective (concat pops) ->
+  length (nodup Nat.eq_dec (map uid (concat pops))) <= cap ->
+  let seen := concat pops in
+  let a := pf_runs sk cap empty_arch pops in
+  (forall m, In m (items a) -> In m seen /\ forall s, In s seen -> f_dom (fitness s) (fitness m) = false) /\
+  (forall s, In s seen -> (forall s', In s' seen -> f_dom (fitness s') (fitness s) = false) ->
+             exists m, In m (items a) /\ f_eq (fitness m) (fitness s) = true).
+Proof.
+  intros R H. apply (pareto_exact_few_sim (sim_of sk) cap pops); [|exact H].
+  intros x Hx. apply (sim_of_refl sk (concat pops)); [apply H|exact R|exact Hx].
+Qed.
+
+Theorem pareto_best_never_worse sk cap pops pop h rest :
+  shown_multi (concat (pops ++ [pop])) ->
+  items (pf_runs sk cap empty_arch pops) = h :: rest ->
+  exists h' rest', items (pf_runs sk cap empty_arch (pops ++ [pop])) = h' :: rest' /\
+                   f_better (fitness h) (fitness h') = false.
+Proof. exact (pareto_best_never_worse_sim (sim_of sk) cap pops pop h rest). Qed.
